@@ -147,7 +147,7 @@ func c10CheckSingle(c *vr.Report, ref *c10Ref, st c10Stmt, rp *RoutingPolicy, el
 				c.Violationf("C10:single:panic:"+c10PanicKey(pan), cs, "condition %s panicked: %s; route=%s env=%s", cd.id(), pan, el.R.Name, el.E.Name)
 			} else if iv != mv {
 				condOK = false
-				c.Violationf("C10:single:condition:"+c10CondKey(cd, el), cs, "condition %s: implementation=%v model=%v; route=%+v env=%+v", cd.id(), iv, mv, el.R, el.E)
+				c.Violationf("C10:condition:"+c10CondKey(cd, el), cs, "condition %s: implementation=%v model=%v; route=%+v env=%+v", cd.id(), iv, mv, el.R, el.E)
 			}
 		}
 	}
@@ -177,7 +177,7 @@ func c10CheckSingle(c *vr.Report, ref *c10Ref, st c10Stmt, rp *RoutingPolicy, el
 		}
 		gflat := c10Flatten(c10Project(got))
 		for _, f := range c10FlatDiff(gflat, wflat, want.Unspec) {
-			c.Violationf("C10:single:attr:"+f+":"+c10Governing(st, f), cs,
+			c.Violationf("C10:attr:"+f+":"+c10Governing(st, f), cs,
 				"resulting %s differs for (%s,%s): implementation=%+v model=%+v; statement=%s route=%+v env=%+v", f, tg.ID, tg.Dir, gflat, wflat, c10StmtString(st), el.R, el.E)
 		}
 	}
@@ -311,6 +311,7 @@ func TestVerif_C10_Single(t *testing.T) {
 		tn = append(tn, fmt.Sprintf("%s/default-%s", tg.Dir, tg.Def))
 	}
 	r.Bounds["targets(direction/default)"] = tn
+	r.Bounds["targets_for_programs_of_size_4"] = "import/default-accept, export/default-reject"
 	c10VerifyConstruction(t, c10StoreUniverse(0))
 	c10VerifyConstruction(t, c10StoreUniverse(3))
 	W := vr.Workers()
@@ -352,7 +353,11 @@ func TestVerif_C10_Single(t *testing.T) {
 						}
 						nApplied := 0
 						for _, s := range stored {
-							if c10CheckSingle(c, lref, st, rp, s.el, s.path, s.opts, 0, targets) {
+							tg := targets
+							if size >= 4 {
+								tg = c10Targets[:2] // thorough: the largest programs meet each direction with one default
+							}
+							if c10CheckSingle(c, lref, st, rp, s.el, s.path, s.opts, 0, tg) {
 								nApplied++
 							}
 						}
@@ -586,6 +591,7 @@ func TestVerif_C10_Skeleton(t *testing.T) {
 	r.Bounds["max_statements_incremental_api"] = KInc
 	r.Bounds["max_policies"] = 2
 	r.Bounds["statement_variants"] = V
+	r.Bounds["statement_variants_in_4_statement_programs"] = 2 * len(acts) * 3
 	r.Bounds["routes"] = 2
 	r.Bounds["targets(direction x default)"] = len(c10Targets)
 	stmtOf := func(v int) c10Stmt {
@@ -598,6 +604,10 @@ func TestVerif_C10_Skeleton(t *testing.T) {
 	W := vr.Workers()
 	var programs int64
 	for k := 1; k <= K; k++ {
+		V := V
+		if k >= 4 {
+			V = 2 * len(acts) * 3 // 4-statement programs: the two prefix-set conditions only
+		}
 		total := 1
 		for i := 0; i < k; i++ {
 			total *= V
@@ -698,6 +708,9 @@ func c10CheckAlias(c *vr.Report, ref *c10Ref, rp *RoutingPolicy, acts []c10Act, 
 			unspec[u] = true
 		}
 	}
+	// a disagreement that already exists after the import stage is the business of part "single" (same
+	// key there); the chain comparison below would only repeat it under the wrong action
+	importAgrees := len(c10FlatDiff(c10Flatten(c10Project(stored)), c10Flatten(model), unspec)) == 0
 	s0 := c10Snapshot(stored)
 	b0 := c10Snapshot(base)
 	pa, pan := c10Apply(rp, fmt.Sprintf("x%d", cs.A1), POLICY_DIRECTION_EXPORT, stored, c10Options(envA))
@@ -731,6 +744,10 @@ func c10CheckAlias(c *vr.Report, ref *c10Ref, rp *RoutingPolicy, acts []c10Act, 
 	} else {
 		c.Outcome("no interference")
 	}
+	if !importAgrees {
+		c.Outcome("import stage already differs from the model (reported by part single); chain comparison skipped")
+		return
+	}
 	// both results also equal the model's (two-step accumulation across separate ApplyPolicy calls)
 	ma, mb := model.clone(), model.clone()
 	ua, ub := map[string]bool{}, map[string]bool{}
@@ -752,11 +769,11 @@ func c10CheckAlias(c *vr.Report, ref *c10Ref, rp *RoutingPolicy, acts []c10Act, 
 		return st
 	}
 	for _, f := range c10FlatDiff(fa, c10Flatten(ma), ua) {
-		fail("C10:alias:chain-attr:"+f+":"+c10Governing(chain(cs.A1), f), "peer A's %s differs from the model after import+export: implementation=%+v model=%+v", f, fa, c10Flatten(ma))
+		fail("C10:attr:"+f+":"+c10Governing(chain(cs.A1), f), "peer A's %s differs from the model after import+export: implementation=%+v model=%+v", f, fa, c10Flatten(ma))
 	}
 	fb := c10Flatten(c10Project(pb))
 	for _, f := range c10FlatDiff(fb, c10Flatten(mb), ub) {
-		fail("C10:alias:chain-attr:"+f+":"+c10Governing(chain(cs.A2), f), "peer B's %s differs from the model after import+export: implementation=%+v model=%+v", f, fb, c10Flatten(mb))
+		fail("C10:attr:"+f+":"+c10Governing(chain(cs.A2), f), "peer B's %s differs from the model after import+export: implementation=%+v model=%+v", f, fb, c10Flatten(mb))
 	}
 }
 
@@ -792,6 +809,7 @@ func TestVerif_C10_Alias(t *testing.T) {
 	}
 	r.Bounds["routes"] = len(routes)
 	r.Bounds["spare_capacity_variants"] = []int{0, 3}
+	r.Bounds["spare_capacity_with_import_stage"] = vr.Thorough()
 	r.Bounds["import_actions(a0)"] = len(acts) + 1
 	r.Bounds["peerA_actions(a1)"] = len(acts)
 	r.Bounds["peerB_actions(a2)"] = len(acts)
@@ -807,6 +825,9 @@ func TestVerif_C10_Alias(t *testing.T) {
 				for a0 := -1; a0 < len(acts); a0++ {
 					if (pass == 0) != (a0 < 0) {
 						continue
+					}
+					if a0 >= 0 && spare > 0 && !vr.Thorough() {
+						continue // quick: explicit spare capacity only on the route as received
 					}
 					for a1 := range acts {
 						n++
